@@ -237,6 +237,10 @@ func (d *Decoder) decodeNALUs(pkt *rtp.Packet) ([][]byte, error) {
 		return nil, err
 	}
 
+	if len(nalus) == 0 {
+		return nil, fmt.Errorf("packet doesn't contain any NALU")
+	}
+
 	return nalus, nil
 }
 
